@@ -7,6 +7,7 @@ import (
 	"fmt"
 	"os"
 	"path/filepath"
+	"regexp"
 	"runtime"
 	"sort"
 	"strings"
@@ -194,12 +195,14 @@ func classify(nat nativeResult, bare, con vmOutcome, ret ty) (sig, detail string
 		return "go-panics-vm-returns:" + faultClass(nat.msg) + after, fmt.Sprintf("Go panics (%s); bare VM: %s; contract: %s", nat.msg, outStr(bare), outStr(con))
 	}
 	switch {
+	case strings.Contains(bare.fault, stepBoundMsg):
+		return "go-terminates-vm-exceeds-step-bound" + after, fmt.Sprintf("Go returns %s; bare VM: %s; contract: %s", nat.val, bare.fault, outStr(con))
 	case bare.fault != "" && con.fault != "":
 		return "go-returns-vm-fails:" + faultClass(bare.fault) + after, fmt.Sprintf("Go returns %s; bare VM: %s; contract: %s", nat.val, bare.fault, con.fault)
+	case bare.fault == "" && bare.n != 1:
+		return "stack:bare-vm-leaves-other-than-one-item" + after, fmt.Sprintf("Go returns %s; bare VM leaves %d items %v; contract: %s", nat.val, bare.n, bare.stack, outStr(con))
 	case (bare.fault != "") != (con.fault != ""):
 		return "bare-vm-and-contract-call-differ:" + faultClass(bare.fault+con.fault) + after, fmt.Sprintf("Go returns %s; bare VM: %s; contract: %s", nat.val, outStr(bare), outStr(con))
-	case bare.n != 1:
-		return "stack:bare-vm-leaves-other-than-one-item" + after, fmt.Sprintf("Go returns %s; bare VM leaves %d items %v; contract: %s", nat.val, bare.n, bare.stack, outStr(con))
 	case !bare.valOK:
 		return "result-type:" + typeName(ret, nil) + ":" + bare.val + after, fmt.Sprintf("Go returns %s; VM returns %v", nat.val, bare.stack)
 	case bare.val != con.val:
@@ -221,6 +224,8 @@ func outStr(o vmOutcome) string {
 	}
 	return fmt.Sprintf("HALT %d item(s) top=%s", o.n, o.val)
 }
+
+var posRe = regexp.MustCompile(`[^ ]*\.go:\d+(:\d+)?:? ?`)
 
 type stats struct {
 	mu   sync.Mutex
@@ -418,10 +423,7 @@ func judge(run *ev.Run, st *stats, p *program, r *progResult, nb *nativeBatch) {
 		return
 	}
 	if r.c.err != nil {
-		cls := faultClass(r.c.err.Error())
-		if i := strings.LastIndex(r.c.err.Error(), ": "); i >= 0 && !strings.HasPrefix(r.c.err.Error(), "compiler panic") {
-			cls = faultClass(r.c.err.Error()[i+2:])
-		}
+		cls := faultClass(posRe.ReplaceAllString(r.c.err.Error(), ""))
 		run.Obs("programs_rejected_by_compiler", 1)
 		sig := "compiler-rejects-program-go-accepts:" + cls
 		if p.directed != "" {
